@@ -95,7 +95,7 @@ Lemma rrel_allows B cur now r r' k :
   snd (rl_allows r now k) = snd (rl_allows r' now k) /\
   rrel B now (fst (rl_allows r now k)) (fst (rl_allows r' now k)).
 Proof.
-  intros R L LB. pose proof (rrel_later B cur now r r' R L) as (A & T & Nd & Ip).
+  intros R L LB. pose proof (rrel_later B cur now r r' R L) as RL. pose proof RL as (A & T & Nd & Ip).
   destruct R as (_ & T0 & Nd0 & Ip0).
   assert (L1 : cur - init_time r <= now - init_time r) by lia.
   assert (L2 : now - init_time r <= B - init_time r) by lia.
@@ -109,13 +109,13 @@ Proof.
       destruct (allows l (now - init_time r) id 1) as [l1 v].
       destruct (allows l' (now - init_time r) id 1) as [l1' v']. cbn [fst snd] in *.
       split; [exact Ev|]. split; [first [exact A|reflexivity]|]. cbn [init_time total_rl node_rl ip_rl olrel]. auto.
-    + cbn [fst snd]. split; [reflexivity|]. split; [first [exact A|reflexivity]|]. auto.
+    + cbn [fst snd]. split; [reflexivity|]. exact RL.
   - destruct (ip_rl r) as [l|], (ip_rl r') as [l'|]; cbn [olrel] in Ip0, Ip; try contradiction.
     + destruct (lrel_allows _ _ _ _ (now - init_time r) ip 1 Ip0 L1 L2) as [Ev Er].
       destruct (allows l (now - init_time r) ip 1) as [l1 v].
       destruct (allows l' (now - init_time r) ip 1) as [l1' v']. cbn [fst snd] in *.
       split; [exact Ev|]. split; [first [exact A|reflexivity]|]. cbn [init_time total_rl node_rl ip_rl olrel]. auto.
-    + cbn [fst snd]. split; [reflexivity|]. split; [first [exact A|reflexivity]|]. auto.
+    + cbn [fst snd]. split; [reflexivity|]. exact RL.
 Qed.
 
 Lemma rrel_prune B cur now r r' :
@@ -228,4 +228,146 @@ Proof.
       * split; [reflexivity|]. split; [reflexivity|]. exists None. split; [reflexivity|]. cbn. rewrite Er. exact Logic.I.
       * split; [reflexivity|]. split; [reflexivity|]. exists None. split; [reflexivity|]. cbn. rewrite Er. exact Logic.I.
     + cbn [fst snd]. split; [reflexivity|]. split; [reflexivity|]. exact Fr1.
+Qed.
+
+Lemma handle_inbound_rel B cur now f f' p ex ip d :
+  frel B cur f f' -> cur <= now -> now <= B ->
+  snd (fst (handle_inbound f p ex ip d now)) = snd (fst (handle_inbound f' p ex ip d now)) /\
+  snd (handle_inbound f p ex ip d now) = snd (handle_inbound f' p ex ip d now) /\
+  frel B now (fst (fst (handle_inbound f p ex ip d now))) (fst (fst (handle_inbound f' p ex ip d now))).
+Proof.
+  intros Fr L LB. destruct ex.
+  - rewrite !handle_inbound_exempt. cbn [fst snd]. split; [reflexivity|]. split; [reflexivity|].
+    eapply frel_later; eauto.
+  - unfold handle_inbound.
+    destruct (initial_pass_rel B cur now f f' p ip Fr L LB) as (Ep & Eo & Fr1).
+    destruct (initial_pass f p ip now) as [[f1 p1] ok1]. destruct (initial_pass f' p ip now) as [[f1' p1'] ok1'].
+    cbn [fst snd] in *. subst p1' ok1'. destruct ok1; cbn [negb]; [|cbn; auto].
+    destruct d as [[id|]|]; [|cbn; auto|cbn; auto].
+    destruct (final_pass_rel B now now f1 f1' p1 ip id Fr1 (N.le_refl _) LB) as (Ep2 & Eo2 & Fr2).
+    destruct (final_pass f1 p1 ip id now) as [[f2 p2] ok2]. destruct (final_pass f1' p1 ip id now) as [[f2' p2'] ok2'].
+    cbn [fst snd] in *. subst p2' ok2'. auto.
+Qed.
+
+Definition is_fprune (e : fevent) : bool := match e with FPruneLimiter => true | _ => false end.
+
+(* every event but prune_limiter: same lists, same observation, equivalent filters *)
+Lemma fstep_rel B cur now f f' p e :
+  frel B cur f f' -> cur <= now -> now <= B -> is_fprune e = false ->
+  snd (fst (fstep f p e now)) = snd (fst (fstep f' p e now)) /\
+  snd (fstep f p e now) = snd (fstep f' p e now) /\
+  frel B now (fst (fst (fstep f p e now))) (fst (fst (fstep f' p e now))).
+Proof.
+  intros Fr L LB Np. pose proof (frel_later B cur now f f' Fr L) as Fr0. destruct e; cbn [fstep]; try discriminate.
+  - destruct (initial_pass_rel B cur now f f' p ip Fr L LB) as (Ep & Eo & Fr1).
+    destruct (initial_pass f p ip now) as [[f1 p1] ok1]. destruct (initial_pass f' p ip now) as [[f1' p1'] ok1'].
+    cbn [fst snd] in *. subst. auto.
+  - destruct (final_pass_rel B cur now f f' p ip id Fr L LB) as (Ep & Eo & Fr1).
+    destruct (final_pass f p ip id now) as [[f1 p1] ok1]. destruct (final_pass f' p ip id now) as [[f1' p1'] ok1'].
+    cbn [fst snd] in *. subst. auto.
+  - destruct (handle_inbound_rel B cur now f f' p exempt ip decoded Fr L LB) as (Ep & Eo & Fr1).
+    destruct (handle_inbound f p exempt ip decoded now) as [[f1 p1] x].
+    destruct (handle_inbound f' p exempt ip decoded now) as [[f1' p1'] x'].
+    cbn [fst snd] in *. subst. auto.
+  - cbn [fst snd]. auto.
+  - cbn [fst snd]. auto.
+  - cbn [fst snd]. auto.
+  - cbn [fst snd]. auto.
+  - cbn [fst snd]. auto.
+Qed.
+
+(* prune_limiter on one side only *)
+Lemma fstep_prune_rel B cur now f f' :
+  frel B cur f f' -> cur <= now -> now <= B -> frel B now (prune_limiter f now) f'.
+Proof.
+  intros (r' & -> & R) L LB. unfold prune_limiter.
+  exists r'. split; [reflexivity|]. cbn [rate with_rate].
+  destruct (rate f) as [r|], r' as [r2|]; cbn [orrel option_map] in *; try contradiction; auto.
+  apply (rrel_prune B cur now r r2 R L LB).
+Qed.
+
+(* ---------------------------------------------------------------------------------------------- *)
+(* whole histories *)
+
+Definition no_fprunes (evs : list (fevent * N)) : list (fevent * N) :=
+  List.filter (fun x => negb (is_fprune (fst x))) evs.
+
+(* the observations of the events that are not prune_limiter calls (a prune call observes nothing) *)
+Fixpoint drop_prune_obs (evs : list (fevent * N)) (os : list fobs) : list fobs :=
+  match evs, os with
+  | (e, _) :: evs', o :: os' => if is_fprune e then drop_prune_obs evs' os' else o :: drop_prune_obs evs' os'
+  | _, _ => []
+  end.
+
+Theorem filter_prune_transparent_rel evs : forall f f' p cur B,
+  frel B cur f f' -> mono_ev cur evs -> Forall (fun x => snd x <= B) evs ->
+  snd (fst (frun f p evs)) = snd (fst (frun f' p (no_fprunes evs))) /\
+  drop_prune_obs evs (snd (frun f p evs)) = snd (frun f' p (no_fprunes evs)).
+Proof.
+  induction evs as [|[e now] evs IH]; intros f f' p cur B Fr M Bf.
+  - cbn. auto.
+  - destruct M as [L M]. inversion Bf as [|x y LB Bfr]; subst. cbn [fst snd] in *.
+    cbn [no_fprunes List.filter fst]. fold (no_fprunes evs).
+    destruct (is_fprune e) eqn:Pe; cbn [negb].
+    + destruct e; try discriminate. cbn [frun fstep].
+      pose proof (fstep_prune_rel B cur now f f' Fr L LB) as Fr1.
+      specialize (IH (prune_limiter f now) f' p now B Fr1 M Bfr).
+      destruct (frun (prune_limiter f now) p evs) as [[f2 p2] os]. cbn [fst snd drop_prune_obs is_fprune] in *.
+      exact IH.
+    + cbn [frun].
+      destruct (fstep_rel B cur now f f' p e Fr L LB Pe) as (Ep & Eo & Fr1).
+      destruct (fstep f p e now) as [[f1 p1] o]. destruct (fstep f' p e now) as [[f1' p1'] o'].
+      cbn [fst snd] in *. subst p1' o'.
+      specialize (IH f1 f1' p1 now B Fr1 M Bfr).
+      destruct (frun f1 p1 evs) as [[f2 p2] os]. destruct (frun f1' p1 (no_fprunes evs)) as [[f2' p2'] os'].
+      cbn [fst snd drop_prune_obs] in *. rewrite Pe. destruct IH as [IH1 IH2]. split; [exact IH1|]. f_equal. exact IH2.
+Qed.
+
+(* a filter is related to itself when its limiters are in a state they can be in at time [cur]
+   and the clock of the window cannot overflow *)
+Definition lgood (B c : N) (l : limiter) : Prop := wfl l /\ linv l c /\ B + tau l + tau l < U64.
+Definition olgood (B c : N) (o : option limiter) : Prop := match o with Some l => lgood B c l | None => True end.
+Definition fgood (B cur : N) (f : pfilter) : Prop :=
+  match rate f with
+  | Some r => lgood (B - init_time r) (cur - init_time r) (total_rl r) /\
+              olgood (B - init_time r) (cur - init_time r) (node_rl r) /\
+              olgood (B - init_time r) (cur - init_time r) (ip_rl r)
+  | None => True
+  end.
+
+Lemma frel_refl B cur f : fgood B cur f -> frel B cur f f.
+Proof.
+  intro G. exists (rate f). split; [destruct f; reflexivity|]. unfold fgood in G.
+  destruct (rate f) as [r|]; cbn [orrel]; [|exact Logic.I].
+  destruct G as ((W & I & H) & Gn & Gi). split; [reflexivity|]. split; [apply lrel_refl; assumption|]. split.
+  - destruct (node_rl r) as [l|]; cbn [olrel olgood] in *; [|exact Logic.I]. destruct Gn as (W1 & I1 & H1). apply lrel_refl; assumption.
+  - destruct (ip_rl r) as [l|]; cbn [olrel olgood] in *; [|exact Logic.I]. destruct Gi as (W1 & I1 & H1). apply lrel_refl; assumption.
+Qed.
+
+(* prune transparency of the filter *)
+Theorem filter_prune_transparent evs f p cur B :
+  fgood B cur f -> mono_ev cur evs -> Forall (fun x => snd x <= B) evs ->
+  snd (fst (frun f p evs)) = snd (fst (frun f p (no_fprunes evs))) /\
+  drop_prune_obs evs (snd (frun f p evs)) = snd (frun f p (no_fprunes evs)).
+Proof. intros G. apply filter_prune_transparent_rel. apply frel_refl. exact G. Qed.
+
+(* a new filter with limiters built by from_quota is good at every time *)
+Lemma new_filter_good B cur en r ban mn mb tq nq iq pt pn pi mt mnn mi :
+  from_quota pt mt = Some tq ->
+  (nq = None \/ exists l, nq = Some l /\ from_quota pn mnn = Some l) ->
+  (iq = None \/ exists l, iq = Some l /\ from_quota pi mi = Some l) ->
+  r = {| init_time := init_time r; total_rl := tq; node_rl := nq; ip_rl := iq |} ->
+  (B - init_time r) + pt + pt < U64 -> (B - init_time r) + pn + pn < U64 -> (B - init_time r) + pi + pi < U64 ->
+  fgood B cur (new_filter en (Some r) ban mn mb).
+Proof.
+  intros Ht Hn Hi Er Bt Bn Bi. unfold fgood, new_filter. cbn [rate]. rewrite Er. cbn [init_time total_rl node_rl ip_rl].
+  destruct (from_quota_spec _ _ _ Ht) as (Et & _).
+  destruct (fresh_limiter_ok pt mt tq (cur - init_time r) Ht) as [W I].
+  split; [split; [exact W|split; [exact I|rewrite Et; exact Bt]]|]. split.
+  - destruct Hn as [->|(l & -> & Hl)]; cbn [olgood]; [exact Logic.I|].
+    destruct (from_quota_spec _ _ _ Hl) as (El & _). destruct (fresh_limiter_ok pn mnn l (cur - init_time r) Hl) as [W1 I1].
+    split; [exact W1|split; [exact I1|rewrite El; exact Bn]].
+  - destruct Hi as [->|(l & -> & Hl)]; cbn [olgood]; [exact Logic.I|].
+    destruct (from_quota_spec _ _ _ Hl) as (El & _). destruct (fresh_limiter_ok pi mi l (cur - init_time r) Hl) as [W1 I1].
+    split; [exact W1|split; [exact I1|rewrite El; exact Bi]].
 Qed.
